@@ -99,7 +99,11 @@ def base_forms():
 _TOKEN_SWAPS = [('sin(', 'cos('), ('cos(', 'sin('), ('exp(', 'log('), ('sqrt(', 'abs('), ('tan(', 'sin('), ('2.0', '3.0'), ('1.0+', '2.0+'),
                 ('*u*v', '*u*u') , ('grad(u)', 'grad(v)'), ('.dx(0)', '.dx(1)'), ('.dt()', '.dt(2)'), ('inner(grad(u), grad(v))', 'u*v'),
                 (' + ', ' - '), ('det(', 'tr('), ('inv(K)', 'K'), ('hess(u)', 'hess(v)'), ('u.dx(0)*v.dx(1)', 'u.dx(1)*v.dx(0)'),
-                ('parametric=True)*Dx(v, 0, parametric=True)', 'parametric=True)*Dx(v, 1, parametric=True)'), ('f**2', 'f**3'), ('/(', '*(')]
+                ('parametric=True)*Dx(v, 0, parametric=True)', 'parametric=True)*Dx(v, 1, parametric=True)'), ('f**2', 'f**3'), ('/(', '*('),
+                # physical <-> parametric derivative of the same order
+                ('grad(u)', 'grad(u, parametric=True)'), ('grad(v)', 'grad(v, parametric=True)'), ('hess(u)', 'hess(u, parametric=True)'),
+                ('u.dx(0)', 'u.dx(0, parametric=True)'), ('div(u)', 'div(u, parametric=True)'), ('grad(f)', 'grad(f, parametric=True)'),
+                ('Dx(u, 0, parametric=True)', 'Dx(u, 0)'), ('hess(f)', 'hess(f, parametric=True)')]
 
 
 def neighbours(spec):
